@@ -160,7 +160,12 @@ func (sl *StakeLimiter) checkUpdatablePowerLimit(delg *Delegatee, diffPower int6
 		}
 	}
 
-	_ratio := updatedPower * int64(100) / sl.baseTotalPower
+	// the total power of the validators can be zero (every stake forfeited or slashed to zero):
+	// there is no ratio to exceed then, and dividing by it would crash the node
+	_ratio := int64(0)
+	if sl.baseTotalPower > 0 {
+		_ratio = updatedPower * int64(100) / sl.baseTotalPower
+	}
 	if sl.updatableLimitRatio < _ratio {
 		// reject
 		return xerrors.From(
